@@ -438,6 +438,10 @@ def check(fx, rep, tier):
     from .. import core as _core
 
     _core.import_rules(rep, fx, "C08", "R11.1", only_rules=("R08.3",), floor=5, what="thread-retirement obligations (C08 R08.3) behind 'no channel between threads'")
+    # the visit / fork counters are per instruction offset: offsets of unrelated fragments never share one (shared with C03)
+    from .c03 import check_counter_keys
+
+    check_counter_keys(fx, rep, "R11.1")
     # a hash belongs to the mapping of ITS slot word only: the mapping lifter accepts exactly keccak(key ++ slot) (shared with C05)
     from .c05 import check_mapping_shape
 
